@@ -3,9 +3,10 @@
    re-checked against it.  Nothing else lives here. *)
 From Coq Require Import Lia.
 From RV.Model Require Import Base Word Limbs Bytes DivRecip DivSmall Redc.
+From RV.Model Require DivRef.
 From RV.Gen Require Import Prim Scalar.
 From RV.Model Require Add Mul UDiv Conv Bits.
-From RV.Proofs Require Import BaseFacts PfGenScalar PfGenAdd PfGenMul PfGenDiv PfGenSpecial PfGenCtor PfGenBits.
+From RV.Proofs Require Import BaseFacts PfGenScalar PfGenAdd PfGenMul PfGenDiv PfGenSpecial PfGenCtor PfGenBits PfGenDivRef PfGenLimbs.
 
 Theorem GenTie_source_equals_model :
   (forall bits, 0 <= bits -> bits + 63 < B -> g_nlimbs bits = Val (nlimbs bits)) /\
@@ -213,10 +214,45 @@ Proof.
 Qed.
 Print Assumptions GenTie_bits_rs.
 
+(* src/algorithms/div: the reference kernels reciprocal_ref, div_2x1_ref, div_3x2_ref (u128 `/`, `%`) *)
+Theorem GenTie_div_ref :
+  (forall d, inW d -> g_reciprocal_ref d = DivRef.reciprocal_ref d) /\
+  (forall u d, 0 <= u < BB -> inW d -> g_div_2x1_ref u d = DivRef.div_2x1_ref u d) /\
+  (forall n21 n0 d, 0 <= n21 < BB -> inW n0 -> 0 <= d < BB ->
+     g_div_3x2_ref n21 n0 d = DivRef.div_3x2_ref n21 n0 d).
+Proof. exact (conj g_reciprocal_ref_eq (conj g_div_2x1_ref_eq g_div_3x2_ref_eq)). Qed.
+Print Assumptions GenTie_div_ref.
+
+(* src/algorithms/{add,mul,shift}.rs: the limb-slice kernels whose bodies are loops
+   (`for i in 0..n`, `for x in xs`): the generated indexed loops (for_range over idx/upd) equal
+   the structural recursions of Model/Limbs.v on all word lists.  A generated function returns
+   (result, updated &mut slice); the model returns (updated slice, result). *)
+Theorem GenTie_limbs_rs :
+  (forall lhs rhs c, Forall inW lhs -> Forall inW rhs -> inW c -> (length lhs <= length rhs)%nat ->
+     g_adc_n lhs rhs c = omap (fun p => (snd p, fst p)) (adc_n lhs rhs c)) /\
+  (forall lhs rhs c, Forall inW lhs -> Forall inW rhs -> inW c -> (length lhs <= length rhs)%nat ->
+     g_sbb_n lhs rhs c = omap (fun p => (snd p, fst p)) (sbb_n lhs rhs c)) /\
+  (forall lhs a, Forall inW lhs -> inW a ->
+     g_mul_nx1 lhs a = Val (snd (mul_nx1 lhs a), fst (mul_nx1 lhs a))) /\
+  (forall lhs a b, Forall inW lhs -> Forall inW a -> inW b ->
+     g_addmul_nx1 lhs a b = omap (fun p => (snd p, fst p)) (addmul_nx1 lhs a b)) /\
+  (forall lhs a b, Forall inW lhs -> Forall inW a -> inW b ->
+     g_submul_nx1 lhs a b = omap (fun p => (snd p, fst p)) (submul_nx1 lhs a b)) /\
+  (forall limbs amount, 0 <= amount ->
+     g_shift_left_small limbs amount = omap (fun p => (snd p, fst p)) (shift_left_small limbs amount)).
+Proof.
+  exact (conj g_adc_n_eq (conj g_sbb_n_eq (conj g_mul_nx1_eq (conj g_addmul_nx1_eq
+        (conj g_submul_nx1_eq g_shift_left_small_eq))))).
+Qed.
+Print Assumptions GenTie_limbs_rs.
+
 (* the premises are satisfiable and the generated code computes: reciprocal(2^63) = 2^64 - 1 *)
 Example GenTie_nonvacuous :
   g_reciprocal_mg10 (2 ^ 63) = Val (2 ^ 64 - 1) /\ g_mask 65 = Val 1 /\ g_nlimbs 65 = Val 2 /\
   g_div_2x1_mg10 (2 ^ 127 - 1) (2 ^ 63) (2 ^ 64 - 1) = Val (2 ^ 64 - 1, 2 ^ 63 - 1) /\
   g_overflowing_add 65 2 [2 ^ 64 - 1; 1] [1; 0] = Val ([0; 0], true) /\
-  g_checked_sub 65 2 [0; 0] [1; 0] = Val None.
+  g_checked_sub 65 2 [0; 0] [1; 0] = Val None /\
+  g_div_3x2_ref (2 ^ 127) 0 (2 ^ 127 + 2 ^ 64 - 1) = Val (2 ^ 64 - 2) /\
+  g_submul_nx1 [0; 5] [3; 0] (2 ^ 64 - 1) = Val (0, [3; 2]) /\
+  g_adc_n [2 ^ 64 - 1; 1] [1; 0] 0 = Val (0, [0; 2]).
 Proof. vm_compute. repeat split. Qed.
